@@ -55,9 +55,9 @@ func loadScope(c *an.Ctx) (map[*ssa.Function][]an.CallEdge, []*ssa.Function) {
 func checkC15(c *an.Ctx) {
 	c.Rule("C15.1", "no unchecked type assertion (E6a): in the load scope a single-result x.(T) is allowed only where every value that can reach x provably has dynamic type T (all stores into the container it is read from, or all returns of the module function it comes from)")
 	c.Rule("C15.2", "no unproven constant indexing (E6b): s[k] / s[k:] with a constant k on a slice needs a dominating comparison of len(s) that implies len(s) > k (≥ k for slicing)")
-	c.Rule("C15.3", "no nil dereference of loaded structure (E6c): a pointer read from a map or slice of pointers (definitions, tasks, pipelines), a pointer parameter fed from such a read, or a result of an error-returning call, is dereferenced only under a dominating non-nil test (or, for call results, after a test of the call's error)")
+	c.Rule("C15.3", "no nil dereference of loaded structure (E6c): a pointer read from a map or slice of pointers (definitions, tasks, pipelines), a pointer parameter fed from such a read, or a result of an error-returning call, is dereferenced (or, for a map, written into) only under a dominating non-nil test (or, for call results, after a test of the call's error — provided no return of a module callee gives a nil result with a nil error)")
 	c.Rule("C15.4", "no abort fed by loaded data (E6d): panic, logrus.Fatal*, os.Exit and template.Must in the load scope are limited to the named environment helpers and constant templates")
-	c.Rule("C15.5", "bounded recursion (E3): every recursive cycle of the load scope is guarded — the import recursion by the visited set on the key passed on, the recursion over included pipelines by the inclusion check of C18.5")
+	c.Rule("C15.5", "bounded recursion (E3): every recursive cycle of the load scope is guarded — the import recursion by the visited set on the key passed on, the recursion over included pipelines by the inclusion check of C18.5 (for the walker itself, and for consumers that cannot run during a load before the walker was called)")
 	c.Rule("C15.6", "tolerated sentinel (E7 taint + E3): where a caller of Load tolerates an error matching a sentinel of internal/config and uses the returned configuration unconditionally, an error that may match the sentinel (the sentinel itself, an fmt.Errorf %w wrap of one, a result passed on) never crosses a recursive call of the loading functions, and Load returns the non-recursive origin together with the destination configuration")
 	c.Rule("C15.7", "guarded document merges (E6d + library summary): a mergo call of the load scope whose operands are raw documents (maps of interface values) runs under a deferred recover that stores a non-nil error into the function's error result — mergo v0.3.8 panics in reflect when the two documents' map types differ (yaml.v2 vs json/toml)")
 	c.Rule("C15.8", "decode hooks (library contract): a function of the module with the shape of a mapstructure DecodeHookFunc never returns a nil value with a nil error (mapstructure v1.1.2 panics on it for every non-interface target)")
@@ -539,9 +539,66 @@ func derefsIn(fn *ssa.Function) []derefSite {
 			if cc.IsInvoke() {
 				out = append(out, derefSite{in, cc.Value})
 			}
+		case *ssa.MapUpdate:
+			// a write into a nil map panics just as a nil pointer does
+			out = append(out, derefSite{in, x.Map})
 		}
 	})
 	return out
+}
+
+// nilWithNilError: a return of fn that hands out a nil first result together with a nil error (the two operands
+// are matched edge by edge where both are φ-nodes of one block).
+func nilWithNilError(fn *ssa.Function) *ssa.Return {
+	ei := an.ErrResultIndex(fn.Signature)
+	if ei < 0 || fn.Blocks == nil {
+		return nil
+	}
+	isNil := func(v ssa.Value) bool {
+		k, ok := v.(*ssa.Const)
+		return ok && k.Value == nil
+	}
+	mayNil := func(v ssa.Value) bool {
+		for _, s := range an.Sources(v) {
+			if isNil(s) {
+				return true
+			}
+		}
+		return false
+	}
+	var found *ssa.Return
+	an.EachInstr(fn, func(in ssa.Instruction) {
+		ret, ok := in.(*ssa.Return)
+		if !ok || found != nil || len(ret.Results) <= ei {
+			return
+		}
+		for vi := range ret.Results {
+			if vi == ei {
+				continue
+			}
+			val := an.RetVal(ret, vi)
+			switch val.Type().Underlying().(type) {
+			case *types.Pointer, *types.Map:
+			default:
+				continue
+			}
+			errv := an.RetVal(ret, ei)
+			pv, vphi := val.(*ssa.Phi)
+			pe, ephi := errv.(*ssa.Phi)
+			if vphi && ephi && pv.Block() == pe.Block() {
+				for i := range pv.Edges {
+					if mayNil(pv.Edges[i]) && mayNil(pe.Edges[i]) {
+						found = ret
+					}
+				}
+				continue
+			}
+			if isNil(val) && mayNil(errv) || isNil(errv) && mayNil(val) && !vphi {
+				found = ret
+			}
+		}
+	})
+	return found
 }
 
 func nilDereferences(c *an.Ctx, fns []*ssa.Function, scope map[*ssa.Function][]an.CallEdge, rule string) {
@@ -619,7 +676,7 @@ func nilDereferences(c *an.Ctx, fns []*ssa.Function, scope map[*ssa.Function][]a
 				case *ssa.Call:
 					if an.ErrResultIndex(t.Call.Signature()) >= 0 && x.Index != an.ErrResultIndex(t.Call.Signature()) {
 						switch x.Type().Underlying().(type) {
-						case *types.Pointer, *types.Interface:
+						case *types.Pointer, *types.Interface, *types.Map:
 							return &origin{kind: "result", desc: an.ShortCallee(&t.Call) + "()", call: t}
 						}
 					}
@@ -701,8 +758,24 @@ func nilDereferences(c *an.Ctx, fns []*ssa.Function, scope map[*ssa.Function][]a
 			case "result":
 				nChecked++
 				key := fmt.Sprintf("%s:use(%s)", an.Short(fn), o.desc)
-				if errTested(d.in.Block(), o.call) || nonNilGuard(d.in.Block(), d.base) {
-					tally(key, true, d.in, "result used after its error was tested")
+				if nonNilGuard(d.in.Block(), d.base) {
+					tally(key, true, d.in, "result nil-tested before use")
+				} else if errTested(d.in.Block(), o.call) {
+					// the error test vouches for the result only if the callee keeps its side: no nil result with a nil error
+					var breach *ssa.Return
+					var who *ssa.Function
+					for _, callee := range p.Callees(o.call.Common()) {
+						if an.InModule(callee) {
+							if r := nilWithNilError(callee); r != nil && breach == nil {
+								breach, who = r, callee
+							}
+						}
+					}
+					if breach != nil {
+						tally(key, false, d.in, fmt.Sprintf("%s uses the result of %s after testing only its error, but %s returns a nil result with a nil error at %s: a nil dereference / write into a nil map", an.Short(fn), o.desc, an.Short(who), p.Pos(breach.Pos())))
+					} else {
+						tally(key, true, d.in, "result used after its error was tested (the callee never returns nil with a nil error)")
+					}
 				} else {
 					tally(key, false, d.in, fmt.Sprintf("%s uses the result of %s before testing the error it returned: when the call fails the result is nil and this is a nil pointer dereference", an.Short(fn), o.desc))
 				}
@@ -1006,8 +1079,25 @@ func boundedRecursion(c *an.Ctx, fns []*ssa.Function, scope map[*ssa.Function][]
 			// (3) recursion over included pipelines: acyclic for every accepted configuration by C18.5
 			if !ed.guarded {
 				for _, a := range e.Site.Common().Args {
-					if an.FieldProv(a) == "Stage.Pipeline" && inclusionWalkerExists(c) {
-						ed.guarded, ed.why = true, "recursion over included pipelines, which the inclusion check (C18.5) makes acyclic for every configuration that loads"
+					if an.FieldProv(a) != "Stage.Pipeline" {
+						continue
+					}
+					w := inclusionWalker(c)
+					if w == nil {
+						continue
+					}
+					// … for the walker itself (C18.5 decides its own guard) and for consumers that run after a
+					// load has succeeded. A function that follows Stage.Pipeline recursively *while loading* —
+					// reachable from Loader.Load, where the inclusion check may not have run yet — is not covered
+					if e.Caller != w && earlyPipelineConsumer(c, e.Caller) {
+						ed.why = "follows included pipelines recursively while the configuration is still being loaded: the inclusion check has not vouched for acyclicity yet"
+						continue
+					}
+					ed.guarded, ed.why = true, "recursion over included pipelines, which the inclusion check (C18.5) makes acyclic for every configuration that loads"
+				}
+				if recvIsPipeline(e) {
+					if w := inclusionWalker(c); w != nil && e.Caller != w && earlyPipelineConsumer(c, e.Caller) {
+						ed.guarded = false
 					}
 				}
 			}
@@ -1061,11 +1151,14 @@ func boundedRecursion(c *an.Ctx, fns []*ssa.Function, scope map[*ssa.Function][]
 // inclusionWalkerExists re-establishes the premise of C18.5 in brief: a
 // recursive function of internal/config that reads Stage.Pipeline is called
 // from buildFromDefinition and its error is propagated.
-func inclusionWalkerExists(c *an.Ctx) bool {
+func inclusionWalkerExists(c *an.Ctx) bool { return inclusionWalker(c) != nil }
+
+// inclusionWalker returns that function.
+func inclusionWalker(c *an.Ctx) *ssa.Function {
 	p := c.P
 	bfd := p.Func("internal/config", "", "buildFromDefinition")
 	if bfd == nil {
-		return false
+		return nil
 	}
 	reach := p.Reach([]*ssa.Function{bfd}, func(e an.CallEdge) bool { return an.InModule(e.Callee) && inPkgs("internal/config")(e.Callee) })
 	for fn := range reach {
@@ -1108,10 +1201,10 @@ func inclusionWalkerExists(c *an.Ctx) bool {
 			cur = next
 		}
 		if ok && cur == bfd {
-			return true
+			return fn
 		}
 	}
-	return false
+	return nil
 }
 
 // boxesOnly reports whether the interface value v is, on every path, a value
@@ -1225,4 +1318,81 @@ func highAtLeast(b *ssa.BasicBlock, h ssa.Value, k int64) bool {
 		}
 	}
 	return false
+}
+
+var duringLoadCache = map[*an.Ctx]map[*ssa.Function]bool{}
+
+// duringLoad: the functions that can run while Loader.Load / LoadGlobalConfig are in progress.
+func duringLoad(c *an.Ctx) map[*ssa.Function]bool {
+	if m, ok := duringLoadCache[c]; ok {
+		return m
+	}
+	p := c.P
+	var roots []*ssa.Function
+	for _, name := range []string{"Load", "LoadGlobalConfig"} {
+		if f := p.Func("internal/config", "Loader", name); f != nil {
+			roots = append(roots, f)
+		}
+	}
+	m := map[*ssa.Function]bool{}
+	for f := range p.Reach(roots, func(e an.CallEdge) bool { return an.InModule(e.Callee) }) {
+		m[f] = true
+	}
+	duringLoadCache[c] = m
+	return m
+}
+
+// recvIsPipeline: the recursive call is a method call on a value read from Stage.Pipeline.
+func recvIsPipeline(e an.CallEdge) bool {
+	cc := e.Site.Common()
+	if cc.IsInvoke() {
+		return an.FieldProv(cc.Value) == "Stage.Pipeline"
+	}
+	return len(cc.Args) > 0 && an.FieldProv(cc.Args[0]) == "Stage.Pipeline"
+}
+
+// earlyPipelineConsumer: fn can run during a load at a point the inclusion walk has not vouched for: it is
+// reachable from Loader.Load through a call that is not placed after the call of the walk (in the function that
+// calls the walk: dominated by that call, or behind the loop that makes it).
+func earlyPipelineConsumer(c *an.Ctx, fn *ssa.Function) bool {
+	w := inclusionWalker(c)
+	if w == nil || fn == w || !duringLoad(c)[fn] {
+		return false
+	}
+	return !afterInclusionCheck(c, fn, w, 0, map[*ssa.Function]bool{})
+}
+
+func afterInclusionCheck(c *an.Ctx, fn, walker *ssa.Function, depth int, seen map[*ssa.Function]bool) bool {
+	if depth > 4 || seen[fn] {
+		return false
+	}
+	seen[fn] = true
+	p := c.P
+	n := 0
+	for _, site := range p.CallSitesOf(fn) {
+		par := site.Parent()
+		if par == fn || !duringLoad(c)[par] {
+			continue
+		}
+		n++
+		var checks []ssa.CallInstruction
+		for _, ws := range p.CallSitesOf(walker) {
+			if ws.Parent() == par {
+				checks = append(checks, ws)
+			}
+		}
+		if len(checks) == 0 {
+			if !afterInclusionCheck(c, par, walker, depth+1, seen) {
+				return false
+			}
+			continue
+		}
+		for _, ws := range checks {
+			after := an.Dominates(ws, site) || (an.CanReach(ws.Block(), site.Block()) && !an.CanReach(site.Block(), ws.Block()))
+			if !after {
+				return false
+			}
+		}
+	}
+	return n > 0
 }
